@@ -1,1 +1,413 @@
-/-! # C12 — property theorems (stub: not built yet) -/
+import KM.Lemmas.Token
+import KM.Model.Oidc
+import KM.Gen.C12
+/-! # C12 — OpenID tokens go only to the right client and name the right user
+
+Property theorems only; the model is `KM.Oidc` (token endpoint, PKCE, userinfo) over the artefacts
+of `KM.Token`. -/
+namespace KM.Oidc
+open KM.Token KM.Gen.C04
+
+/-! ### unpacking a successful token request -/
+
+theorem length_pos_ne_nil {s : Str} : (decide (s.length > 0) = true) ↔ s ≠ [] := by
+  cases s <;> simp
+
+theorem gStr_optStr (s : Str) : (decStr (optStr s)).getD [] = s := by
+  unfold optStr
+  by_cases h : s = []
+  · simp [h, decStr]
+  · simp [h, decStr]
+
+theorem token_ok {cfg : Cfg} {now : Clock} {r : TokenReq} {idt acc : Wire}
+    (h : token cfg now r = .ok (idt, acc)) :
+    r.method = "POST".toList ∧ r.grantType = "authorization_code".toList ∧ r.redirect ≠ [] ∧
+    verifies cfg.dep r.code = true ∧ typedCode r.code.claims = true ∧
+    ∃ id pass cl, creds r = .ok (id, pass) ∧ getClient cfg id = some cl ∧
+      ¬(r.verifier ≠ [] ∧ cl.secret ≠ []) ∧ credsValid cfg cl pass r.verifier r.code.claims = true ∧
+      codeChecks now id r.redirect r.code.claims = .ok () ∧
+      idt = emitId cfg.dep r.code.claims id now.sec ∧ acc = emitAccess cfg.dep r.code.claims now.sec := by
+  unfold token at h
+  split at h
+  · cases h
+  · rename_i h1
+    split at h
+    · cases h
+    · rename_i h2
+      split at h
+      · cases h
+      · rename_i h3
+        split at h
+        · cases h
+        · rename_i h4
+          split at h
+          · cases h
+          · rename_i h5
+            split at h
+            · cases h
+            · rename_i id pass hc
+              split at h
+              · cases h
+              · rename_i cl hcl
+                split at h
+                · cases h
+                · rename_i h6
+                  split at h
+                  · cases h
+                  · rename_i h7
+                    split at h
+                    · cases h
+                    · rename_i hcc
+                      injection h with h
+                      injection h with hi ha
+                      refine ⟨by simpa using h1, by simpa using h2, by simpa using h3, by simpa using h4,
+                        by simpa using h5, id, pass, cl, hc, hcl, ?_, by simpa using h7, hcc, hi.symm, ha.symm⟩
+                      intro ⟨hv, hs⟩
+                      apply h6
+                      simp only [Bool.and_eq_true, bne_iff_ne, ne_eq]
+                      exact ⟨length_pos_ne_nil.mpr hv, hs⟩
+
+/-- what the handler's `valid` flag amounts to once the PKCE gate was passed -/
+theorem proved_of_valid {cfg : Cfg} {cl : Client} {pass verifier : Str} {c : Wire}
+    (hg : ¬(verifier ≠ [] ∧ cl.secret ≠ [])) (hv : credsValid cfg cl pass verifier c = true) :
+    provedClient cfg cl pass verifier c = true := by
+  simp only [credsValid, Bool.or_eq_true, Bool.and_eq_true, beq_iff_eq] at hv
+  by_cases hve : verifier = []
+  · have h12 : decide (pass.length > 0) = true ∧ pass = cl.secret := by
+      rcases hv with ⟨h1, _⟩ | h
+      · rw [hve] at h1; simp at h1
+      · exact h
+    have hs : cl.secret ≠ [] := by
+      intro hs
+      have := length_pos_ne_nil.mp h12.1
+      exact this (h12.2.trans hs)
+    simp [provedClient, hve, hs, h12.2]
+  · have hs : cl.secret = [] := by
+      cases hh : cl.secret with
+      | nil => rfl
+      | cons a as => exact absurd ⟨hve, by simp [hh]⟩ hg
+    have hvv : validCodeVerifier cfg verifier c = true := by
+      rcases hv with ⟨_, h2⟩ | ⟨h1, h2⟩
+      · exact h2
+      · have := length_pos_ne_nil.mp h1
+        exact absurd (h2.trans hs) this
+    simp [provedClient, hve, hs, hvv]
+
+/-- **Release.** Tokens leave the token endpoint only if: the code carries a signature of one of the
+deployment's keys; the caller named a registered client and proved to be it — by the client secret
+(no verifier involved), or, for a secret-less client, by a verifier matching the challenge sealed
+inside the code; the code was issued to that client; it has not expired; the redirect URI is the
+one bound into the code; and it is an authorization code (`type = token_endpoint`). -/
+theorem c12_release (cfg : Cfg) (now : Clock) (r : TokenReq) (idt acc : Wire)
+    (h : token cfg now r = .ok (idt, acc)) : releasable cfg now r = true := by
+  obtain ⟨_, _, _, hv, _, id, pass, cl, hc, hcl, hg, hcv, hcc, _, _⟩ := token_ok h
+  obtain ⟨h1, h2, h3, h4⟩ := codeChecks_ok hcc
+  simp [releasable, hc, hcl, verifies_signed hv, proved_of_valid hg hcv, h1, h2, h3, h4]
+
+/-- the same with the conjuncts spelled out -/
+theorem c12_release_explicit (cfg : Cfg) (now : Clock) (r : TokenReq) (idt acc : Wire)
+    (h : token cfg now r = .ok (idt, acc)) :
+    ∃ id pass cl, creds r = .ok (id, pass) ∧ getClient cfg id = some cl ∧ cl.id = id ∧
+      ((cl.secret ≠ [] ∧ r.verifier = [] ∧ pass = cl.secret) ∨
+       (cl.secret = [] ∧ r.verifier ≠ [] ∧ validCodeVerifier cfg r.verifier r.code.claims = true)) ∧
+      signedByDeployment cfg.dep r.code = true ∧ gStr r.code.claims .sub = id ∧
+      now.sec ≤ gInt r.code.claims .exp ∧ gStr r.code.claims .redirectUri = r.redirect ∧
+      gStr r.code.claims .typ = codeType := by
+  obtain ⟨_, _, _, hv, _, id, pass, cl, hc, hcl, hg, hcv, hcc, _, _⟩ := token_ok h
+  obtain ⟨h1, h2, h3, h4⟩ := codeChecks_ok hcc
+  have hp0 := proved_of_valid hg hcv
+  simp only [provedClient, Bool.or_eq_true, Bool.and_eq_true, bne_iff_ne, ne_eq, beq_iff_eq] at hp0
+  have hp : (cl.secret ≠ [] ∧ r.verifier = [] ∧ pass = cl.secret) ∨
+      (cl.secret = [] ∧ r.verifier ≠ [] ∧ validCodeVerifier cfg r.verifier r.code.claims = true) := by
+    rcases hp0 with ⟨⟨a, b⟩, c⟩ | ⟨⟨a, b⟩, c⟩
+    · exact Or.inl ⟨a, b, c⟩
+    · exact Or.inr ⟨a, b, c⟩
+  have hid : cl.id = id := by
+    unfold getClient at hcl
+    have := List.find?_some hcl
+    simpa using this
+  exact ⟨id, pass, cl, hc, hcl, hid, hp, verifies_signed hv, h1, h2, h3, h4⟩
+
+/-! ### what the released tokens say -/
+
+/-- **ID token.** Issuer is this server, the audience is exactly the authenticated client, the
+subject is the user bound into the code, the nonce is the code's, and it expires when the code's
+`auth_exp` says. -/
+theorem c12_idtoken (cfg : Cfg) (now : Clock) (r : TokenReq) (idt acc : Wire)
+    (h : token cfg now r = .ok (idt, acc)) :
+    ∃ id pass, creds r = .ok (id, pass) ∧
+      idt .iss = some (.str cfg.dep.issuer) ∧ idt .aud = some (.strs [id]) ∧
+      idt .sub = some (.str (gStr r.code.claims .username)) ∧
+      gStr idt .nonce = gStr r.code.claims .nonce ∧
+      idt .exp = some (.num (gInt r.code.claims .authExp)) ∧ idt .iat = some (.num now.sec) ∧
+      idt .typ = none ∧ idt .tokenType = none := by
+  obtain ⟨_, _, _, _, _, id, pass, cl, hc, _, _, _, _, hi, _⟩ := token_ok h
+  subst hi
+  refine ⟨id, pass, hc, rfl, rfl, rfl, ?_, rfl, rfl, rfl, rfl⟩
+  show (decStr (optStr (gStr r.code.claims .nonce))).getD [] = _
+  exact gStr_optStr _
+
+theorem mintCode_some {cfg : Cfg} {user : Str} {q : AuthzReq} {t : Int} {c : Wire}
+    (hm : mintCode cfg user q t = some c) :
+    ∃ p : CodeParams, c = emitCode cfg.dep p t ∧ p.client = q.client ∧ p.user = user ∧ p.nonce = q.nonce ∧
+      p.redirect = q.redirect ∧ p.scope = q.scope := by
+  unfold mintCode at hm
+  split at hm
+  · cases hm
+  · injection hm with hm
+    exact ⟨_, hm.symm, rfl, rfl, rfl, rfl, rfl⟩
+
+theorem emitCode_getters (d : Deployment) (p : CodeParams) (t : Int) (h0 : 0 ≤ t) (h1 : t < 4611686018427387904) :
+    gStr (emitCode d p t) .sub = p.client ∧ gStr (emitCode d p t) .username = p.user ∧
+    gStr (emitCode d p t) .nonce = p.nonce ∧ gStr (emitCode d p t) .redirectUri = p.redirect ∧
+    gStr (emitCode d p t) .scope = p.scope ∧ gStr (emitCode d p t) .typ = codeType ∧
+    gInt (emitCode d p t) .authExp = t + 57600 ∧ gInt (emitCode d p t) .exp = t + 300 := by
+  have e1 : inI64 (t + KM.Gen.maxAgeSecondsAuthCookie) = true := by
+    unfold inI64 KM.Gen.maxAgeSecondsAuthCookie; simp; omega
+  have e2 : inI64 (t + KM.Gen.idpOpenIDCMaxAuthProcessMaxDurationSeconds) = true := by
+    unfold inI64 KM.Gen.idpOpenIDCMaxAuthProcessMaxDurationSeconds; simp; omega
+  refine ⟨by simp [emitCode, gStr, decStr], by simp [emitCode, gStr, decStr], by simp [emitCode, gStr, decStr],
+    by simp [emitCode, gStr, decStr], by simp [emitCode, gStr, decStr], by simp [emitCode, gStr, decStr], ?_, ?_⟩
+  · simp only [emitCode, gInt, decInt, e1]
+    simp [KM.Gen.maxAgeSecondsAuthCookie]
+  · simp only [emitCode, gInt, decInt, e2]
+    simp [KM.Gen.idpOpenIDCMaxAuthProcessMaxDurationSeconds]
+
+/-- **ID token, end to end.** For a code minted by the authorization handler at time `t` for the
+logged-in `user` (client, redirect URI, nonce taken from that request): whenever the token endpoint
+later releases tokens on it, the ID token names this server as issuer, exactly the requesting client
+as audience and `user` as subject, echoes that request's nonce, and expires exactly 16 hours after
+the authorization (`maxAgeSecondsAuthCookie`); the redirect URI presented equals the authorized one
+and the code was at most 300 s old. -/
+theorem c12_idtoken_end_to_end (cfg : Cfg) (user : Str) (q : AuthzReq) (t : Int) (c : Wire)
+    (h0 : 0 ≤ t) (h1 : t < 4611686018427387904)
+    (hm : mintCode cfg user q t = some c) (now : Clock) (r : TokenReq) (idt acc : Wire)
+    (hr : r.code.claims = c) (h : token cfg now r = .ok (idt, acc)) :
+    idt .iss = some (.str cfg.dep.issuer) ∧ idt .aud = some (.strs [q.client]) ∧
+    idt .sub = some (.str user) ∧ gStr idt .nonce = q.nonce ∧
+    idt .exp = some (.num (t + 16 * 3600)) ∧ r.redirect = q.redirect ∧ now.sec ≤ t + 300 := by
+  obtain ⟨id, pass, hc, k1, k2, k3, k4, k5, _⟩ := c12_idtoken cfg now r idt acc h
+  obtain ⟨_, _, _, _, _, id', pass', cl, hc', _, _, _, hcc, _, _⟩ := token_ok h
+  rw [hc] at hc'
+  injection hc' with hc'
+  injection hc' with hid _
+  subst hid
+  obtain ⟨c1, c2, c3, _⟩ := codeChecks_ok hcc
+  obtain ⟨p, hp, p1, p2, p3, p4, _⟩ := mintCode_some hm
+  obtain ⟨g1, g2, g3, g4, _, _, g7, g8⟩ := emitCode_getters cfg.dep p t h0 h1
+  rw [hr, hp] at k3 k4 k5 c1 c2 c3
+  rw [g1] at c1
+  rw [g2] at k3
+  rw [g3] at k4
+  rw [g7] at k5
+  rw [g8] at c2
+  rw [g4] at c3
+  refine ⟨k1, ?_, ?_, ?_, ?_, ?_, c2⟩
+  · rw [k2, ← c1, p1]
+  · rw [k3, p2]
+  · rw [k4, p3]
+  · rw [k5]; congr 2
+  · rw [← c3, p4]
+
+/-! ### PKCE -/
+
+/-- **PKCE methods** (RFC 7636 §4.6) as `idpOpenIDCValidCodeVerifier` implements them: `S256` compares
+the hashed verifier, `plain` and an absent method compare the verifier itself, anything else fails. -/
+theorem c12_pkce (cfg : Cfg) (p : Protected) (v : Str) :
+    (p.method = "S256".toList → methodCheck cfg p v = (cfg.s256 v == p.challenge)) ∧
+    (p.method = "plain".toList ∨ p.method = [] → methodCheck cfg p v = (v == p.challenge)) ∧
+    (p.method ≠ [] → p.method ≠ "plain".toList → p.method ≠ "S256".toList → methodCheck cfg p v = false) := by
+  refine ⟨?_, ?_, ?_⟩
+  · intro h; simp [methodCheck, h]
+  · intro h; rcases h with h | h <;> simp [methodCheck, h]
+  · intro h1 h2 h3
+    unfold methodCheck
+    rw [if_neg (not_or.mpr ⟨h1, h2⟩), if_neg h3]
+
+/-- **PKCE gate.** Whenever tokens are released: a request carrying a verifier came from a
+secret-less client and the code's sealed data opened to a challenge the verifier matches under its
+method; a request without verifier came from a secret-bearing client presenting exactly its secret.
+Hence a secret-bearing client can never use a verifier, a public client can never get by without
+one, and a code minted without challenge is useless to a public client. -/
+theorem c12_pkce_gate (cfg : Cfg) (now : Clock) (r : TokenReq) (idt acc : Wire)
+    (h : token cfg now r = .ok (idt, acc)) :
+    ∃ id pass cl, creds r = .ok (id, pass) ∧ getClient cfg id = some cl ∧
+      (r.verifier ≠ [] → cl.secret = [] ∧
+        ∃ p, cfg.openSealed (gStr r.code.claims .protectedDataKey) (gStr r.code.claims .protectedData)
+               (gStr r.code.claims .jti) = some p ∧ methodCheck cfg p r.verifier = true) ∧
+      (r.verifier = [] → cl.secret ≠ [] ∧ pass = cl.secret) := by
+  obtain ⟨id, pass, cl, hc, hcl, _, hp, _⟩ := c12_release_explicit cfg now r idt acc h
+  refine ⟨id, pass, cl, hc, hcl, ?_, ?_⟩
+  · intro hv
+    rcases hp with ⟨_, h2, _⟩ | ⟨h1, _, h3⟩
+    · exact absurd h2 hv
+    · refine ⟨h1, ?_⟩
+      unfold validCodeVerifier at h3
+      split at h3
+      · cases h3
+      · rename_i p hp'
+        exact ⟨p, hp', h3⟩
+  · intro hv
+    rcases hp with ⟨h1, _, h3⟩ | ⟨_, h2, _⟩
+    · exact ⟨h1, h3⟩
+    · exact absurd hv h2
+
+/-! ### userinfo -/
+
+theorem verifies_of_key {d : Deployment} {l : List Alg} (hl : allowed d = some l) {k : Key} (hk : k ∈ d.trusted)
+    {al : Alg} (hal : algOf k.ty = some al) (w : Wire) :
+    verifies d { claims := w, alg := al, signedBy := some k.id, sigAlg := al } = true := by
+  unfold verifies
+  rw [hl]
+  simp only [Bool.and_eq_true, List.contains_iff_mem, List.any_eq_true]
+  refine ⟨(allowed_mem hl al).mpr ⟨k, hk, hal⟩, k, hk, ?_⟩
+  simp [hal]
+
+theorem emitAccess_aud (d : Deployment) (c : Wire) (t : Int) :
+    (emitAccess d c t) .aud = none ∨
+    ∃ l, (emitAccess d c t) .aud = some (.strs l) ∧ l.contains d.userinfoURL = true := by
+  simp only [emitAccess]
+  split
+  · right
+    refine ⟨gStrs c .accessAudience ++ [d.userinfoURL], ?_, by simp⟩
+    unfold optStrs
+    rw [if_neg (by simp)]
+  · left; rfl
+
+theorem emitAccess_getters (d : Deployment) (c : Wire) (t : Int) (ht : inI64 t = true) :
+    typedAccess (emitAccess d c t) = true ∧ gInt (emitAccess d c t) .exp = gInt c .authExp ∧
+    gStr (emitAccess d c t) .typ = accessType ∧ gStr (emitAccess d c t) .iss = d.issuer ∧
+    gStr (emitAccess d c t) .username = gStr c .username ∧
+    (gStrs (emitAccess d c t) .aud = [] ∨ (gStrs (emitAccess d c t) .aud).contains d.userinfoURL = true) := by
+  have hr := gInt_range c .authExp
+  refine ⟨?_, ?_, ?_, ?_, ?_, ?_⟩
+  · unfold typedAccess okStr okStrs okInt
+    rcases emitAccess_aud d c t with ha | ⟨l, ha, _⟩
+    · rw [ha]; simp [emitAccess, decStr, decInt, decStrs, hr, ht]
+    · rw [ha]; simp [emitAccess, decStr, decInt, decStrs, hr, ht]
+  · show (decInt (some (.num (gInt c .authExp)))).getD 0 = gInt c .authExp
+    simp only [decInt, hr]
+    rfl
+  · simp [emitAccess, gStr, decStr]
+  · simp [emitAccess, gStr, decStr]
+  · show (decStr (some (.str (gStr c .username)))).getD [] = gStr c .username
+    simp [decStr]
+  · unfold gStrs
+    rcases emitAccess_aud d c t with ha | ⟨l, ha, hl⟩
+    · left; rw [ha]; simp [decStrs]
+    · right; rw [ha]; simpa [decStrs] using hl
+
+/-- **Userinfo.** Let the token endpoint release `(idt, acc)` on a code. Presented to userinfo at any
+later time, signed as keymaster signs it (a trusted key `k`, its own algorithm), the access token
+yields exactly the user bound into the code, for as long as `auth_exp` has not passed; and whatever
+userinfo answers for that token is that user. -/
+theorem c12_userinfo (cfg : Cfg) (now : Clock) (r : TokenReq) (idt acc : Wire)
+    (h : token cfg now r = .ok (idt, acc)) (hn : inI64 now.sec = true)
+    (k : Key) (hk : k ∈ cfg.dep.trusted) (al : Alg) (hal : algOf k.ty = some al) (now' : Clock) :
+    (now'.sec ≤ gInt r.code.claims .authExp →
+      userinfo cfg now' { claims := acc, alg := al, signedBy := some k.id, sigAlg := al }
+        = .ok (gStr r.code.claims .username)) ∧
+    (∀ u, userinfo cfg now' { claims := acc, alg := al, signedBy := some k.id, sigAlg := al } = .ok u →
+      u = gStr r.code.claims .username) := by
+  obtain ⟨_, _, _, hv, _, id, pass, cl, _, _, _, _, _, _, ha⟩ := token_ok h
+  subst ha
+  obtain ⟨g1, g2, g3, g4, g5, g6⟩ := emitAccess_getters cfg.dep r.code.claims now.sec hn
+  have hal' : ∃ l, allowed cfg.dep = some l := by
+    unfold verifies at hv
+    split at hv
+    · cases hv
+    · rename_i l hl; exact ⟨l, hl⟩
+  obtain ⟨l, hl⟩ := hal'
+  have hvv := verifies_of_key hl hk hal (emitAccess cfg.dep r.code.claims now.sec)
+  constructor
+  · intro hle
+    unfold userinfo acceptAccess
+    simp only [hvv, g1, g2, g3, g4, g5, Bool.not_true, Bool.false_eq_true, if_false]
+    have h1 : ¬ (gInt r.code.claims .authExp < now'.sec) := by omega
+    simp only [h1, if_false, bne_self_eq_false, Bool.false_eq_true]
+    rcases g6 with g6 | g6
+    · simp [g6]
+    · simp only [List.contains_iff_mem] at g6
+      simp [g6]
+  · intro u hu
+    obtain ⟨_, _, _, _, _, _, hh⟩ := acceptAccess_ok hu
+    rw [hh, g5]
+
+/-- **Userinfo answers only for genuine access tokens** (from C04): whatever makes userinfo answer
+carries a deployment signature, is of kind `bearer`, is unexpired, names this server as issuer and
+the answer is its `username` claim; codes and ID tokens never qualify (`c04_matrix`). -/
+theorem c12_userinfo_only (cfg : Cfg) (now : Clock) (tok : Artefact) (u : Str)
+    (h : userinfo cfg now tok = .ok u) :
+    signedByDeployment cfg.dep tok = true ∧ gStr tok.claims .typ = accessType ∧
+    now.sec ≤ gInt tok.claims .exp ∧ gStr tok.claims .iss = cfg.dep.issuer ∧ u = gStr tok.claims .username := by
+  obtain ⟨hv, _, h1, h2, h3, _, h5⟩ := acceptAccess_ok h
+  exact ⟨verifies_signed hv, h2, h1, h3, h5⟩
+
+/-! ### the regenerated facts the model was transcribed from -/
+
+/-- **Sites.** The PKCE switch has exactly the arms modelled by `methodCheck`; a client may use PKCE
+iff its secret is empty, a secret is valid iff equal to the configured one; the credential `if`s of
+the token handler are the ones `creds` / `token` mirror; the authorization handler refuses a
+challenge with a method other than "" / "S256" and seals exactly challenge and method; and the ID
+token, access token and code are filled from the sources the emit functions use. -/
+theorem c12_sites :
+    KM.Gen.C12.pkceSwitchTag = "protectedData.CodeChallengeMethod".toList ∧
+    KM.Gen.C12.pkceSwitch = [([[], "plain".toList], .verifierEqChallenge), (["S256".toList], .s256EqChallenge),
+                             (["<default>".toList], .alwaysFalse)] ∧
+    KM.Gen.C12.clientCanDoPKCE = "client.ClientSecret == \"\", nil".toList ∧
+    KM.Gen.C12.validClientSecret = "clientSecret == client.ClientSecret".toList ∧
+    KM.Gen.C12.tokenAuthConditions = ["!ok".toList, "len(pass) < 1 && len(codeVerifier) < 1".toList,
+      "len(clientID) < 1".toList, "len(codeVerifier) > 0".toList, "!canUserCodeVerifier".toList,
+      "!valid && len(pass) > 0".toList, "!valid".toList] ∧
+    KM.Gen.C12.authzChallengeConditions = ["len(protectedData.CodeChallenge) > 0".toList,
+      "len(protectedData.CodeChallengeMethod) > 0 && protectedData.CodeChallengeMethod != \"S256\"".toList] ∧
+    KM.Gen.C12.protectedDataAssignments = [("CodeChallenge".toList, "r.Form.Get(\"code_challenge\")".toList),
+      ("CodeChallengeMethod".toList, "r.Form.Get(\"code_challenge_method\")".toList)] ∧
+    KM.Gen.C12.idTokenAssignments = [("Issuer".toList, "state.idpGetIssuer()".toList),
+      ("Subject".toList, "keymasterToken.Username".toList), ("Audience".toList, "[]string{clientID}".toList),
+      ("Nonce".toList, "keymasterToken.Nonce".toList), ("Expiration".toList, "keymasterToken.AuthExpiration".toList),
+      ("IssuedAt".toList, "time.Now().Unix()".toList)] ∧
+    KM.Gen.C12.accessTokenAssignments = [("Issuer".toList, "state.idpGetIssuer()".toList),
+      ("Username".toList, "keymasterToken.Username".toList), ("Scope".toList, "keymasterToken.Scope".toList),
+      ("Expiration".toList, "idToken.Expiration".toList), ("Type".toList, "\"bearer\"".toList),
+      ("IssuedAt".toList, "time.Now().Unix()".toList),
+      ("Audience".toList, "append(keymasterToken.AccessAudience, state.idpGetIssuer()+idpOpenIDCUserinfoPath)".toList)] ∧
+    KM.Gen.C12.codeAssignments = [("Issuer".toList, "state.idpGetIssuer()".toList), ("Subject".toList, "clientID".toList),
+      ("IssuedAt".toList, "time.Now().Unix()".toList), ("JWTId".toList, "jwtId".toList), ("Scope".toList, "scope".toList),
+      ("AuthExpiration".toList, "time.Now().Unix() + maxAgeSecondsAuthCookie".toList),
+      ("Expiration".toList, "time.Now().Unix() + idpOpenIDCMaxAuthProcessMaxDurationSeconds".toList),
+      ("Username".toList, "authData.Username".toList), ("RedirectURI".toList, "requestRedirectURLString".toList),
+      ("Type".toList, "\"token_endpoint\"".toList), ("ProtectedData".toList, "protectedCipherText".toList),
+      ("ProtectedDataKey".toList, "protectedCipherTextKeys".toList), ("AccessAudience".toList, "accessAudience".toList),
+      ("Nonce".toList, "r.Form.Get(\"nonce\")".toList)] ∧
+    cmps_idpOpenIDCTokenHandler = [⟨.subject, .ne, .loc "clientID".toList⟩, ⟨.expiration, .lt, .nowUnix⟩,
+      ⟨.redirectURI, .ne, .form "redirect_uri".toList⟩, ⟨.typ, .ne, .lit codeType⟩] ∧
+    KM.Gen.maxAgeSecondsAuthCookie = 16 * 3600 ∧ KM.Gen.idpOpenIDCMaxAuthProcessMaxDurationSeconds = 300 := by
+  decide
+
+/-! ### non-vacuity -/
+
+def exDep : Deployment := { issuer := "https://km".toList, trusted := [⟨1, .rsa⟩] }
+/-- toy stand-ins for SHA-256 and for the sealed data of the example code -/
+def exCfg : Cfg :=
+  { dep := exDep, clients := [⟨"web".toList, "s3cret".toList⟩, ⟨"spa".toList, []⟩],
+    s256 := fun v => 'h' :: v,
+    openSealed := fun k d _ => if k = "K".toList ∧ d = "D".toList then some ⟨'h' :: "ver".toList, "S256".toList⟩ else none }
+def exCode (client : Str) (pd : Str) : Artefact :=
+  { claims := emitCode exDep ⟨client, "alice".toList, "openid".toList, "n-123456".toList, "https://app/cb".toList, [], "j".toList,
+                               if pd = [] then [] else "K".toList, pd⟩ 1000,
+    alg := .RS256, signedBy := some 1, sigAlg := .RS256 }
+def exReq (client : Str) (pd verifier : Str) (basic : Option (Str × Str)) : TokenReq :=
+  { method := "POST".toList, grantType := "authorization_code".toList, redirect := "https://app/cb".toList,
+    code := exCode client pd, verifier := verifier, basic := basic, formClientID := client, formSecret := [] }
+
+/-- a confidential client with its secret, and a public client with the right verifier, get tokens -/
+example : isOk (token exCfg ⟨1100, 0⟩ (exReq "web".toList [] [] (some ("web".toList, "s3cret".toList)))) = true := by decide
+example : isOk (token exCfg ⟨1100, 0⟩ (exReq "spa".toList "D".toList "ver".toList none)) = true := by decide
+/-- wrong verifier, verifier = challenge under S256, confidential client using a verifier, expired code: refused -/
+example : isOk (token exCfg ⟨1100, 0⟩ (exReq "spa".toList "D".toList "bad".toList none)) = false := by decide
+example : isOk (token exCfg ⟨1100, 0⟩ (exReq "spa".toList "D".toList ('h' :: "ver".toList) none)) = false := by decide
+example : isOk (token exCfg ⟨1100, 0⟩ (exReq "web".toList "D".toList "ver".toList (some ("web".toList, "s3cret".toList)))) = false := by decide
+example : isOk (token exCfg ⟨1301, 0⟩ (exReq "web".toList [] [] (some ("web".toList, "s3cret".toList)))) = false := by decide
+
+end KM.Oidc
